@@ -17,9 +17,11 @@ from vlib import VERIF, Inconclusive
 
 SPEC = os.path.join(VERIF, "spec")
 TLA_CP = "/opt/veriftools/tla/tla2tools.jar:/opt/veriftools/tla/CommunityModules-deps.jar"
-DEV_CFGS = {"NoFlushOnRefuse": "Flushed", "EarlyQueueRead": "Flushed", "UnlockBeforeWrite": "LockHeld", "NoDropReport": "Accounted"}
+DEV_CFGS = {"NoFlushOnRefuse": "Flushed", "EarlyQueueRead": "Flushed", "UnlockBeforeWrite": "LockHeld", "NoDropReport": "Accounted",
+            "WritesAfterDisconnect": "LastIsDisconnect"}
+REF_CFGS = ["MC_OutPath_ref", "MC_OutPath_disc"]
 # which rules a property's check reports (the others are logged)
-RULES_OF = {"C34": ("C34.",), "C39": ("C39.", "C23."), "C12": ("C12.", "C03.")}
+RULES_OF = {"C34": ("C34.",), "C39": ("C39.",), "C12": ("C12.", "C03."), "C23": ("C23.",)}
 RULE_FINDING = {}
 
 # directed schedules (reference behaviours) around the places where the deviations differ from the code
@@ -41,6 +43,12 @@ WITNESSES = [
     dict(name="witness/refusal-flushes", cap=2, steps=[
         W("env", "pub:small", "loop.dequeued"), W("loop", "write.afterClosedCheck"), W("loop", "write.encoded"), W("env", "pub:over", "queued"),
         W("loop", "write.unlocked"), W("loop", "loop.dequeued"), W("loop", "write.afterClosedCheck"), W("loop", "conn.write"), W("loop", "idle")]),
+    # the reader has written DISCONNECT (protocol error of the client) and has not yet stopped the client when the write
+    # loop gets to a queued PUBLISH: it must not follow the DISCONNECT
+    dict(name="witness/nothing-after-disconnect", cap=2, steps=[
+        W("env", "pub:small", "loop.dequeued"), W("env", "bad", "write.afterClosedCheck"), W("rd", "write.encoded"), W("rd", "conn.write"),
+        W("rd", "write.unlocked"), W("rd", "disconnect.written"), W("loop", "write.afterClosedCheck"), W("loop", "write.encoded"),
+        W("loop", "write.unlocked"), W("loop", "idle"), W("rd", "read.handled")]),
 ]
 
 
@@ -57,7 +65,7 @@ def _tlc(cfg, workers, timeout, d, module="MC_OutPath.tla", extra=None):
 
 def design(ctx):
     hh = hashlib.sha1()
-    files = ["OutPath.tla", "MC_OutPath.tla", "MC_OutPath_ref.cfg"] + ["MC_OutPath_dev_%s.cfg" % d for d in DEV_CFGS]
+    files = ["OutPath.tla", "MC_OutPath.tla"] + [c + ".cfg" for c in REF_CFGS] + ["MC_OutPath_dev_%s.cfg" % d for d in DEV_CFGS]
     for fn in files:
         hh.update(open(os.path.join(SPEC, fn), "rb").read())
     cdir = os.path.join(VERIF, ".work", "_design")
@@ -78,17 +86,17 @@ def design(ctx):
         for fn in files:
             shutil.copy(os.path.join(SPEC, fn), d)
         t0 = time.time()
-        jobs = ["MC_OutPath_ref"] + ["MC_OutPath_dev_" + dv for dv in DEV_CFGS]
-        with ThreadPoolExecutor(max_workers=5) as ex:
-            outs = list(ex.map(lambda j: _tlc(j, 4 if j.endswith("ref") else 2, 1800, d), jobs))
+        jobs = REF_CFGS + ["MC_OutPath_dev_" + dv for dv in DEV_CFGS]
+        with ThreadPoolExecutor(max_workers=7) as ex:
+            outs = list(ex.map(lambda j: _tlc(j, 4 if j in REF_CFGS else 2, 1800, d), jobs))
         refuted, distinct, generated = {}, 0, 0
         for cfg, out in zip(jobs, outs):
             m = re.search(r"(\d+) states generated, (\d+) distinct states found", out)
-            if cfg.endswith("_ref"):
+            if cfg in REF_CFGS:
                 if "No error has been found" not in out or not m:
                     sys.stderr.write(out[-3000:])
-                    raise Inconclusive("OutPath.tla reference: TLC did not complete cleanly")
-                generated, distinct = int(m.group(1)), int(m.group(2))
+                    raise Inconclusive("OutPath.tla reference %s: TLC did not complete cleanly" % cfg)
+                generated, distinct = generated + int(m.group(1)), distinct + int(m.group(2))
             else:
                 dv = cfg[len("MC_OutPath_dev_"):]
                 mm = re.search(r"Invariant (\w+) is violated", out)
@@ -107,10 +115,10 @@ def design(ctx):
 
 def generate(ctx, num):
     scs = []
-    for cfg in ("Gen_OutPath", "Gen_OutPath_cap1"):
+    for cfg in ("Gen_OutPath", "Gen_OutPath_cap1", "Gen_OutPath_disc"):
         out = ctx.path("gen", "outpath_" + cfg, "x")[:-2]
         r = ctx.tlc("GenOutPath", cfg + ".cfg", name="gen_" + cfg, workers=1, heap="4g", timeout=1500,
-                    simulate="num=%d" % (num if cfg == "Gen_OutPath" else max(num // 3, 10)), depth=70, extra=["-seed", str(ctx.seed * 104729 + len(cfg))],
+                    simulate="num=%d" % (num if cfg == "Gen_OutPath" else max(num // 3, 10) if cfg.endswith("cap1") else max(num // 2, 10)), depth=70, extra=["-seed", str(ctx.seed * 104729 + len(cfg))],
                     env={"VERIF_OUT": out, "VERIF_MINLEN": "8"})
         if r.rc != 0:
             sys.stderr.write(r.tail(30))
